@@ -1193,7 +1193,7 @@ def run(ck) -> None:
                                   "events": [["new", f] for f in cursors] + path_of(p, first, elems)})
     for s in tree_mism[:3]:
         ck.broken("correspondence:DoublyLinkedSet-model(exhaustive)", json.dumps(s))
-    scopes = [([1, 2, 3], [True, False], depth + 1, 45 if not ck.thorough else 600)]
+    scopes = [([1, 2, 3], [True, False], depth + 1, 45 if not ck.thorough else 480)]
     if ck.thorough:
         scopes += [([1, 2], [True, True], depth, 120), ([1, 2, 3], [False, False], depth, 120)]
     for init, cursors, d, budget in scopes:
